@@ -29,7 +29,8 @@ Definition value_eqb (a b : value) : bool :=
 Definition ty_default (t : ty) : option value := match t with TData => Some (VData 0 0) | _ => None end.
 
 (* ---- signatures ---- *)
-Inductive pkind := PosOrKw | KwOnly.
+Inductive pkind := PosOrKw | KwOnly
+               | PosOnly.   (* `def f(a, /)`: may only be passed positionally *)
 Record param := { p_name : str; p_kind : pkind; p_ty : ty; p_default : option value }.
 Definition sig := list param.
 
